@@ -445,6 +445,11 @@ theorem lenI_eq_6_5 (n : Nat) : (((n : Nat) : Int) + 1 + 1 + 1 + 1 + 1 + 1 = 5) 
 theorem lenN_eq_6_5 (n : Nat) : (n + 1 + 1 + 1 + 1 + 1 + 1 = 5) = False := by simp only [eq_iff_iff, iff_false]; omega
 attribute [ib] lenI_eq_1_0 lenN_eq_1_0 lenI_lt_1_1 lenN_lt_1_1 lenI_eq_2_0 lenN_eq_2_0 lenI_lt_2_1 lenN_lt_2_1 lenI_eq_2_1 lenN_eq_2_1 lenI_lt_2_2 lenN_lt_2_2 lenI_eq_3_0 lenN_eq_3_0 lenI_lt_3_1 lenN_lt_3_1 lenI_eq_3_1 lenN_eq_3_1 lenI_lt_3_2 lenN_lt_3_2 lenI_eq_3_2 lenN_eq_3_2 lenI_lt_3_3 lenN_lt_3_3 lenI_eq_4_0 lenN_eq_4_0 lenI_lt_4_1 lenN_lt_4_1 lenI_eq_4_1 lenN_eq_4_1 lenI_lt_4_2 lenN_lt_4_2 lenI_eq_4_2 lenN_eq_4_2 lenI_lt_4_3 lenN_lt_4_3 lenI_eq_4_3 lenN_eq_4_3 lenI_lt_4_4 lenN_lt_4_4 lenI_eq_5_0 lenN_eq_5_0 lenI_lt_5_1 lenN_lt_5_1 lenI_eq_5_1 lenN_eq_5_1 lenI_lt_5_2 lenN_lt_5_2 lenI_eq_5_2 lenN_eq_5_2 lenI_lt_5_3 lenN_lt_5_3 lenI_eq_5_3 lenN_eq_5_3 lenI_lt_5_4 lenN_lt_5_4 lenI_eq_5_4 lenN_eq_5_4 lenI_lt_5_5 lenN_lt_5_5 lenI_eq_6_0 lenN_eq_6_0 lenI_lt_6_1 lenN_lt_6_1 lenI_eq_6_1 lenN_eq_6_1 lenI_lt_6_2 lenN_lt_6_2 lenI_eq_6_2 lenN_eq_6_2 lenI_lt_6_3 lenN_lt_6_3 lenI_eq_6_3 lenN_eq_6_3 lenI_lt_6_4 lenN_lt_6_4 lenI_eq_6_4 lenN_eq_6_4 lenI_lt_6_5 lenN_lt_6_5 lenI_eq_6_5 lenN_eq_6_5
 
+theorem callFn_ctxDone (c : Ctx) (env : Env) (vs : VState) (h : List.lookup "ctx" env = some (V.opaque "timeout context")) :
+    callFn c env vs "ctx.Done" [] = .ok (.opaque "done") := by
+  unfold callFn; simp [h]
+attribute [ib] callFn_ctxDone
+
 attribute [ib] orAssign_mods
 attribute [ib low] condBranch_ok condBranch_not
 
